@@ -783,7 +783,8 @@ def solve_cards():
     return example_cards(SOLVE_MUGRID)
 
 
-KEYS = [(100.0, 5), (400.0, 5), (900.0, 6)]
+# two of the keys agree to 7 significant digits: distinct keys, however close, are distinct entries (file stems included)
+KEYS = [(100.0, 5), (100.00001, 5), (900.0, 6)]
 
 
 # ---------------------------------------------------------------------------
